@@ -272,12 +272,38 @@ func genGun(r *rand.Rand, inst int) string {
 	return fmt.Sprintf("kind=gun inst=%d shots=%d L=%d rq=%s sc=%s or=%s", inst, shots, rows, strings.Join(defs, ";"), strings.Join(scs, ";"), strings.Join(orc, "/"))
 }
 
+// ---------------------------------------------------------------- kind=first
+
+func genFirst(r *rand.Rand, mode string, thorough bool) string {
+	inst := []int{2, 2, 3, 4, 4, 5, 8}[r.Intn(7)]
+	rounds := 5
+	if mode == "par" {
+		inst = []int{4, 8, 8, 12}[r.Intn(4)]
+		rounds = 50
+		if thorough {
+			rounds = 200
+		}
+	} else if thorough {
+		inst = 2 + r.Intn(15)
+		rounds = 8
+	}
+	shots := 1 + r.Intn(3)
+	rows := 1 + r.Intn(3*inst*shots)
+	return fmt.Sprintf("kind=first mode=%s inst=%d shots=%d L=%d rounds=%d", mode, inst, shots, rows, rounds)
+}
+
 func gen(r *rand.Rand, tier string) []string {
-	nProv, nGun1, nGun4 := 800, 340, 170
+	nProv, nGun1, nGun4, nCtl, nPar := 800, 340, 170, 12, 3
 	if tier == "thorough" {
-		nProv, nGun1, nGun4 = 16000, 6000, 3000
+		nProv, nGun1, nGun4, nCtl, nPar = 16000, 6000, 3000, 300, 40
 	}
 	var out []string
+	for i := 0; i < nCtl; i++ {
+		out = append(out, genFirst(r, "ctl", tier == "thorough"))
+	}
+	for i := 0; i < nPar; i++ {
+		out = append(out, genFirst(r, "par", tier == "thorough"))
+	}
 	for i := 0; i < nProv; i++ {
 		out = append(out, genProv(r))
 	}
